@@ -7,7 +7,7 @@ def funcHashes : List (String × String) := [
   ("provider.IdentityProvider.callbackHandleFunc", "636c7715f1e361ec"),
   ("provider.IdentityProvider.loginResponse", "98152b496cd27d27"),
   ("provider.IdentityProvider.errorResponse", "36e97fa86262a93a"),
-  ("provider.Response.sendBackResponse", "dcb610cfe3da1673"),
+  ("provider.Response.sendBackResponse", "9ec0634ad775112e"),
   ("provider.createSignature", "8c96c3f60bccaab7"),
   ("provider.createPostSignature", "63abb0ce7bc8d709"),
   ("provider.createRedirectSignature", "5127aaad949082ca"),
@@ -67,11 +67,11 @@ def funcHashes : List (String × String) := [
   ("xml.DecodeLogoutRequest", "af76d00bf6b01921"),
   ("serviceprovider.ServiceProvider.ValidatePostSignature", "a001037d705afe90"),
   ("serviceprovider.ServiceProvider.ValidateRedirectSignature", "7ec17590afe8ccc0"),
-  ("serviceprovider.NewServiceProvider", "b58c5870ec6f6e33"),
+  ("serviceprovider.NewServiceProvider", "749d0d9066f79ae5"),
   ("serviceprovider.getSigningCertsFromMetadata", "b193dc584a035161"),
-  ("signature.ValidateRedirect", "43372152e7a47a2d"),
+  ("signature.ValidateRedirect", "431ef443a529a2a0"),
   ("signature.ValidatePost", "8fad1d15a4e01ede"),
-  ("signature.verifyDSA", "087b667c7a6e14f5"),
+  ("signature.verifyDSA", "94fae0aad5dfc86a"),
   ("signature.Create", "695e25f35b0a9e86"),
   ("signature.GetSigner", "f1040a9716268ef5"),
   ("signature.ParseCertificates", "ed5bbe2c035b43c5")
@@ -83,13 +83,15 @@ def ssoChain : Chain := {
     { kind := "WithValueNotEmptyCheck", calls := [], fail := "saml:StatusCodeRequestDenied", hash := "aa6dd7cdc496248d" },
     { kind := "WithConditionalValueNotEmpty", calls := [], fail := "saml:StatusCodeRequestDenied", hash := "aa191bd0a0491350" },
     { kind := "WithLogicStep", calls := ["xml.DecodeAuthNRequest"], fail := "saml:StatusCodeRequestDenied", hash := "9db311d7d45ed307" },
-    { kind := "WithLogicStep", calls := ["p.GetServiceProvider", "sp.GetEntityID"], fail := "saml:StatusCodeRequestDenied", hash := "23d38f142a3040bb" },
+    { kind := "WithLogicStep", calls := ["p.GetServiceProvider", "sp.GetEntityID"], fail := "saml:StatusCodeRequestDenied", hash := "f5f16f0dd2b96765" },
     { kind := "WithConditionalLogicStep", calls := ["certificateCheckNecessary", "checkCertificate"], fail := "saml:StatusCodeRequestDenied", hash := "1d68e00dbf0c5bb5" },
     { kind := "WithConditionalLogicStep", calls := ["signatureRedirectVerificationNecessary", "verifyRedirectSignature"], fail := "saml:StatusCodeRequestDenied", hash := "871729f82d7c9e60" },
     { kind := "WithConditionalLogicStep", calls := ["signaturePostVerificationNecessary", "verifyPostSignature"], fail := "saml:StatusCodeRequestDenied", hash := "efba847eb941b37f" },
+    { kind := "WithLogicStep", calls := ["signaturePostProvided((func() *xml_dsig.SignatureType literal))", "signaturePostProvided"], fail := "saml:StatusCodeRequestDenied", hash := "7a51de5648904e70" },
     { kind := "WithValueStep", calls := ["GetAcsUrlAndBindingForResponse"], fail := "", hash := "4ab736a2c4f73210" },
     { kind := "WithValueNotEmptyCheck", calls := [], fail := "saml:StatusCodeUnsupportedBinding", hash := "d1ec2ad52822da77" },
     { kind := "WithValueNotEmptyCheck", calls := [], fail := "saml:StatusCodeUnsupportedBinding", hash := "4ade47dba013821c" },
+    { kind := "WithLogicStep", calls := [], fail := "saml:StatusCodeUnsupportedBinding", hash := "fb86fd4708b121b2" },
     { kind := "WithLogicStep", calls := ["checkRequestRequiredContent"], fail := "saml:StatusCodeRequestDenied", hash := "feb0e0a8e2b4b333" },
     { kind := "WithLogicStep", calls := ["p.storage.CreateAuthRequest"], fail := "saml:StatusCodeResponder", hash := "4331612103638966" }
   ],
